@@ -144,7 +144,7 @@ func init() {
 	scenarioFamilies["c10"] = func(tier string, rng *rand.Rand) []scenarioSet {
 		var out []scenarioSet
 		thorough := tier == "thorough"
-		for _, rep := range []string{"plain", "cached"} {
+		for _, rep := range []string{"plain", "cached", "both"} {
 			// records on two timers in two scopes interleaved with passes (and the loop): exactly one synchronous delivery per Record
 			b10 := 3000
 			if thorough {
